@@ -309,3 +309,25 @@ Proof.
           (conj (tie_fw_acquire O) (tie_fw_tua O)))))).
 Qed.
 Print Assumptions c10_code_policies_refine_models.
+
+(** AdaptivePolicy's token part AS TRANSLATED (_refill / try_acquire / time_until_available, any
+    arithmetic [O], so also the binary64 instance): each is the model function on the abstraction
+    (rate, tokens, last refill) when the model's window parameter is the object's; for
+    time_until_available under a positive rate — which the constructor (min_rate > 0) and the AIMD
+    updates (never below min_rate) guarantee — and then for ANY value standing for float("inf"). *)
+Theorem c10_code_adaptive_refines_model : forall (O : numops) (p : adp O) (s : AdaptivePolicy O) now inf,
+  ad_win p = AdaptivePolicy__window_size O s ->
+  (let s' := fst (AdaptivePolicy__refill O s now) in
+   ad_abs O s' = ad_refill O p (ad_abs O s) now /\ AdaptivePolicy__window_size O s' = AdaptivePolicy__window_size O s)
+  /\ (let r := AdaptivePolicy_try_acquire O s now in
+      (ad_abs O (fst r), snd r) = ad_acquire O p (ad_abs O s) now
+      /\ AdaptivePolicy__window_size O (fst r) = AdaptivePolicy__window_size O s)
+  /\ (nlt O (n0 O) (AdaptivePolicy__current_rate O s) = true ->
+      let r := AdaptivePolicy_time_until_available O s now inf in
+      (ad_abs O (fst r), snd r) = ad_tua O p (ad_abs O s) now
+      /\ AdaptivePolicy__window_size O (fst r) = AdaptivePolicy__window_size O s).
+Proof.
+  intros O p s now inf Hw.
+  exact (conj (tie_ad_refill O p s now Hw) (conj (tie_ad_acquire O p s now Hw) (fun Hr => tie_ad_tua O p s now inf Hw Hr))).
+Qed.
+Print Assumptions c10_code_adaptive_refines_model.
